@@ -96,17 +96,29 @@ def run(ck):
             va = S2.cmd("verify", f"k{i}", f"fq{i}_{j}", "="); vb = S2.cmd("verify", f"r{i}", f"fq{i}_{j}", "=")
             probes.append((i, nm, pos, d, va, vb))
             ck.count(("flip", i, pos), kind="proof bit flips", nontrivial=False)
+        # the second 32-byte encoding v + r of every evaluation (always below 2^256): must not decode
+        for slot in (range(15) if (not quick or i == good[0][0]) else [rng.randrange(15)]):
+            o = 528 + 32 * slot
+            v = int.from_bytes(pb[o:o + 32], "little")
+            b = bytearray(pb); b[o:o + 32] = (v + R).to_bytes(32, "little")
+            j = f"a{slot}"
+            S2.cmd("blob", f"f{i}_{j}", bytes(b).hex())
+            d = S2.cmd("decode", "proof", f"f{i}_{j}", f"fp{i}_{j}")
+            S2.cmd("proofbytes", f"fq{i}_{j}", bytes(b).hex(), pi or "-")
+            va = S2.cmd("verify", f"k{i}", f"fq{i}_{j}", "="); vb = S2.cmd("verify", f"r{i}", f"fq{i}_{j}", "=")
+            probes.append((i, nm, f"evaluation {slot} re-encoded as v + r", d, va, vb))
+            ck.count(("alias", i, slot), kind="evaluation alias v + r")
     res2 = protocol.run(S2, "c16b")
     for i, nm, pos, d, va, vb in probes:
         r = res2[d]
         if r.startswith("OK") and "canonical=false" in r:
-            ck.violation(f"proof decoder accepts a non-canonical 1008-byte string (bit flip at byte {pos})", {"failing_input_found": True, "circuit": S.circuits[nm], "byte": pos}, key="proof-canonical")
+            ck.violation(f"proof decoder accepts a non-canonical 1008-byte string ({pos if isinstance(pos, str) else f'bit flip at byte {pos}'})", {"failing_input_found": True, "circuit": S.circuits[nm], "byte": pos}, key="proof-canonical")
         if r.startswith("OK") and res2[va].split()[0] != res2[vb].split()[0]:
             ck.violation(f"original and decoded verifier disagree on a mutated proof (byte {pos}): {res2[va][:40]} vs {res2[vb][:40]}", {"failing_input_found": True, "circuit": S.circuits[nm], "byte": pos}, key="verifier-behaviour")
         if r.startswith("OK") and res2[va].startswith("OK"):
             ck.notes.append(f"mutated proof accepted by the verifier at byte {pos} (see C03)")
     return ck.finish(level="proof",
-        rule="circuits using every subset pattern of gate families (incl. range without logic, single families), sizes 4..70, the F1 circuit whose interpolated q_M loses its top coefficient, public inputs on first/last rows; prover and verifier through bytes: bytes equal after re-encoding, decoded prover yields the same proof from the same scripted randomness, decoded verifier accepts the same proofs and treats bit-flipped proofs identically; public parameters of several degrees; every accepted 1008-byte mutant re-encodes to itself",
+        rule="circuits using every subset pattern of gate families (incl. range without logic, single families), sizes 4..70, the F1 circuit whose interpolated q_M loses its top coefficient, public inputs on first/last rows; prover and verifier through bytes: bytes equal after re-encoding, decoded prover yields the same proof from the same scripted randomness, decoded verifier accepts the same proofs and treats bit-flipped proofs identically; public parameters of several degrees; every accepted 1008-byte mutant re-encodes to itself; the alias encoding v + r of every evaluation must not decode",
         assumptions=["G1/G2/scalar codecs of dusk-bls12_381 are canonical and round-trip (their contract)"],
         checker_cmd=proofgate.CHECKER_CMD, trusted_base=proofgate.TRUSTED)
 
